@@ -56,6 +56,8 @@ type gofun struct {
 	variants  map[string][]*types.Named // interface coq name -> implementing structs
 	variantOf map[*types.Named]*types.Named
 	dropping  map[*types.Func]bool
+	nilable   map[*types.Var]bool // struct fields compared with nil somewhere in the loaded packages
+	omitted   map[*types.Var]bool // struct fields whose type is outside the fragment (left out of the record)
 }
 
 type unsupported struct{ msg string }
@@ -81,9 +83,20 @@ func (g *gofun) ours(n *types.Named) bool {
 }
 
 // coqType renders a Go type; field=true renders a pointer to a struct as an option.
+// externTypes: types of go/types that the hand-written model already has (GoTypes.v).
+var externTypes = map[string]string{
+	"go/types.Type":       "ty",
+	"*go/types.Var":       "field",
+	"*go/types.Func":      "go_func",
+	"*go/types.Signature": "sig",
+}
+
 func (g *gofun) coqType(t types.Type, field bool, pos token.Pos) string {
 	if isBuilder(t) {
 		return "str"
+	}
+	if ct, ok := externTypes[t.String()]; ok {
+		return ct
 	}
 	switch u := t.(type) {
 	case *types.Named:
@@ -169,9 +182,52 @@ func (g *gofun) needStruct(n *types.Named, pos token.Pos) {
 	var fields []string
 	for i := 0; i < st.NumFields(); i++ {
 		f := st.Field(i)
-		fields = append(fields, fmt.Sprintf("%s_%s : %s", n.Obj().Name(), f.Name(), g.coqType(f.Type(), true, f.Pos())))
+		ft, ok := g.fieldType(f, nil, "")
+		if !ok {
+			g.omitted[f] = true
+			continue
+		}
+		fields = append(fields, fmt.Sprintf("%s_%s : %s", n.Obj().Name(), f.Name(), ft))
 	}
 	g.typeOut = append(g.typeOut, fmt.Sprintf("(* %s *)\nRecord %s := mk%s { %s }.\n", g.where(n.Obj().Pos()), name, n.Obj().Name(), strings.Join(fields, "; ")))
+}
+
+// fieldType: the Gallina type of a struct field. A pointer to a struct or an interface value is an
+// option only when the field is compared with nil somewhere in the loaded packages; otherwise it is
+// assumed non-nil (recorded in the trusted base). self/selfName: the inductive being defined.
+func (g *gofun) fieldType(f *types.Var, self *types.Named, selfName string) (res string, ok bool) {
+	defer func() {
+		if r := recover(); r != nil {
+			if _, isU := r.(unsupported); isU {
+				res, ok = "", false
+				return
+			}
+			panic(r)
+		}
+	}()
+	t := f.Type()
+	var base string
+	switch {
+	case self != nil && types.Identical(t, types.NewSlice(self)):
+		return "list " + selfName, true
+	case self != nil && types.Identical(t, self):
+		base = selfName
+	default:
+		if p, isPtr := t.(*types.Pointer); isPtr {
+			if _, ext := externTypes[t.String()]; !ext {
+				if n, isN := p.Elem().(*types.Named); isN {
+					if _, isS := n.Underlying().(*types.Struct); isS {
+						t = n
+					}
+				}
+			}
+		}
+		base = g.coqType(t, false, f.Pos())
+	}
+	if g.nilable[f] {
+		return "(option " + base + ")", true
+	}
+	return base, true
 }
 
 func (g *gofun) where(p token.Pos) string {
@@ -193,13 +249,9 @@ func (g *gofun) needIface(n *types.Named, pos token.Pos) {
 		var args []string
 		for i := 0; i < st.NumFields(); i++ {
 			f := st.Field(i)
-			var ft string
-			if types.Identical(f.Type(), types.NewSlice(n)) {
-				ft = "list " + name
-			} else if types.Identical(f.Type(), n) {
-				ft = name
-			} else {
-				ft = g.coqType(f.Type(), true, f.Pos())
+			ft, ok := g.fieldType(f, n, name)
+			if !ok {
+				g.fail(f.Pos(), "field %s.%s of a case of interface %s has a type outside the fragment", v.Obj().Name(), f.Name(), n.Obj().Name())
 			}
 			args = append(args, fmt.Sprintf("(%s : %s)", f.Name(), ft))
 		}
@@ -352,6 +404,9 @@ func (c *fnCtx) expr(e ast.Expr) string {
 			c.g.fail(e.Pos(), "field %s of a struct that is a case of an interface, outside a type switch on it", types.ExprString(e))
 		}
 		c.g.needStruct(n, e.Pos())
+		if fv, ok := sel.Obj().(*types.Var); ok && c.g.omitted[fv] {
+			c.g.fail(e.Pos(), "field %s has a type outside the fragment", types.ExprString(e))
+		}
 		return fmt.Sprintf("(%s_%s %s)", n.Obj().Name(), e.Sel.Name, c.expr(e.X))
 	case *ast.BinaryExpr:
 		x, y := c.expr(e.X), c.expr(e.Y)
@@ -409,6 +464,16 @@ func (c *fnCtx) expr(e ast.Expr) string {
 			return fmt.Sprintf("(skipn (Z.to_nat %s) %s)", c.expr(e.Low), c.expr(e.X))
 		}
 		c.g.fail(e.Pos(), "slice expression %s", types.ExprString(e))
+	case *ast.TypeAssertExpr:
+		// m.Type().(*types.Signature) on a *types.Func: the signature the model keeps with the function
+		if c.typeOf(e).String() == "*go/types.Signature" {
+			if call, ok := e.X.(*ast.CallExpr); ok && len(call.Args) == 0 {
+				if sel, ok := call.Fun.(*ast.SelectorExpr); ok && sel.Sel.Name == "Type" && c.typeOf(sel.X).String() == "*go/types.Func" {
+					return fmt.Sprintf("(gf_sig %s)", c.expr(sel.X))
+				}
+			}
+		}
+		c.g.fail(e.Pos(), "type assertion %s", types.ExprString(e))
 	case *ast.CallExpr:
 		return c.call(e)
 	}
@@ -416,7 +481,121 @@ func (c *fnCtx) expr(e ast.Expr) string {
 	return ""
 }
 
+// externCall: calls into go/types and pkg/util that the hand-written model has a counterpart for.
+func (c *fnCtx) externCall(e *ast.CallExpr) (string, bool) {
+	txt := types.ExprString(e)
+	if txt == `types.Universe.Lookup("string").Type()` {
+		return "string_ty", true
+	}
+	sel, ok := e.Fun.(*ast.SelectorExpr)
+	if !ok {
+		return "", false
+	}
+	// util.IsPtr(t)
+	if id, ok := sel.X.(*ast.Ident); ok {
+		if pn, ok := c.info.ObjectOf(id).(*types.PkgName); ok && strings.HasSuffix(pn.Imported().Path(), "/pkg/util") {
+			switch sel.Sel.Name {
+			case "IsPtr":
+				return fmt.Sprintf("(is_ptr %s)", c.expr(e.Args[0])), true
+			case "DerefPtr":
+				return fmt.Sprintf("(deref_ptr %s)", c.expr(e.Args[0])), true
+			}
+			return "", false
+		}
+	}
+	if _, isSel := c.info.Selections[sel]; !isSel {
+		return "", false
+	}
+	// sig.Results().Len()  /  sig.Results().At(k).Type()
+	if inner, ok := sel.X.(*ast.CallExpr); ok {
+		if isel, ok := inner.Fun.(*ast.SelectorExpr); ok {
+			if isel.Sel.Name == "Results" && sel.Sel.Name == "Len" && c.typeOf(isel.X).String() == "*go/types.Signature" {
+				return fmt.Sprintf("(Z.of_nat (length (sg_rtys %s)))", c.expr(isel.X)), true
+			}
+			if isel.Sel.Name == "At" && sel.Sel.Name == "Type" && len(inner.Args) == 1 {
+				if rcall, ok := isel.X.(*ast.CallExpr); ok {
+					if rsel, ok := rcall.Fun.(*ast.SelectorExpr); ok && rsel.Sel.Name == "Results" && c.typeOf(rsel.X).String() == "*go/types.Signature" {
+						if tv, ok := c.info.Types[inner.Args[0]]; ok && tv.Value != nil {
+							if k, ok := constant.Int64Val(tv.Value); ok {
+								return fmt.Sprintf("(go_nth_type (sg_rtys %s) %d)", c.expr(rsel.X), k), true
+							}
+						}
+					}
+				}
+			}
+		}
+	}
+	rt := c.typeOf(sel.X).String()
+	switch {
+	case rt == "*go/types.Var" && sel.Sel.Name == "Name" && len(e.Args) == 0:
+		return fmt.Sprintf("(f_name %s)", c.expr(sel.X)), true
+	case rt == "*go/types.Var" && sel.Sel.Name == "Type" && len(e.Args) == 0:
+		return fmt.Sprintf("(f_type %s)", c.expr(sel.X)), true
+	case rt == "*go/types.Func" && sel.Sel.Name == "Name" && len(e.Args) == 0:
+		return fmt.Sprintf("(gf_name %s)", c.expr(sel.X)), true
+	case rt == "*go/types.Var" && sel.Sel.Name == "Type":
+		return "", false
+	}
+	return "", false
+}
+
+// sprintf: fmt.Sprintf with a constant format made of literal text and %v verbs over strings.
+func (c *fnCtx) sprintf(e *ast.CallExpr) string {
+	tv, ok := c.info.Types[e.Args[0]]
+	if !ok || tv.Value == nil || tv.Value.Kind() != constant.String {
+		c.g.fail(e.Pos(), "fmt.Sprintf with a format that is not a constant")
+	}
+	format := constant.StringVal(tv.Value)
+	var parts []string
+	arg := 1
+	lit := ""
+	for i := 0; i < len(format); i++ {
+		if format[i] != '%' {
+			lit += string(format[i])
+			continue
+		}
+		if i+1 < len(format) && format[i+1] == '%' {
+			lit += "%"
+			i++
+			continue
+		}
+		if i+1 >= len(format) || format[i+1] != 'v' || arg >= len(e.Args) {
+			c.g.fail(e.Pos(), "fmt.Sprintf format %q: only %%v verbs with one argument each are translated", format)
+		}
+		if kindOf(c.typeOf(e.Args[arg])) != "str" {
+			c.g.fail(e.Pos(), "fmt.Sprintf %%v on a %s", kindOf(c.typeOf(e.Args[arg])))
+		}
+		if lit != "" {
+			parts = append(parts, bytesLit(lit))
+			lit = ""
+		}
+		parts = append(parts, c.expr(e.Args[arg]))
+		arg++
+		i++
+	}
+	if lit != "" {
+		parts = append(parts, bytesLit(lit))
+	}
+	if arg != len(e.Args) {
+		c.g.fail(e.Pos(), "fmt.Sprintf: %d arguments for format %q", len(e.Args)-1, format)
+	}
+	if len(parts) == 0 {
+		return "[]"
+	}
+	return "(" + strings.Join(parts, " ++ ") + ")"
+}
+
 func (c *fnCtx) call(e *ast.CallExpr) string {
+	if s, ok := c.externCall(e); ok {
+		return s
+	}
+	if sel, ok := e.Fun.(*ast.SelectorExpr); ok {
+		if id, ok := sel.X.(*ast.Ident); ok {
+			if pn, ok := c.info.ObjectOf(id).(*types.PkgName); ok && pn.Imported().Path() == "fmt" && sel.Sel.Name == "Sprintf" {
+				return c.sprintf(e)
+			}
+		}
+	}
 	// conversion T(x) between string kinds
 	if tv, ok := c.info.Types[e.Fun]; ok && tv.IsType() {
 		if len(e.Args) == 1 && kindOf(tv.Type) == kindOf(c.typeOf(e.Args[0])) {
@@ -499,6 +678,18 @@ func (c *fnCtx) call(e *ast.CallExpr) string {
 			if _, ok := n.Underlying().(*types.Interface); ok && c.g.ours(n) {
 				name := c.g.needDispatcher(n, fn.Name(), c, e.Pos())
 				return "(" + strings.Join(append([]string{name, c.expr(f.X)}, args()...), " ") + ")"
+			}
+		}
+		{
+			rt := recvT
+			if p, ok := rt.(*types.Pointer); ok {
+				rt = p.Elem()
+			}
+			if n, ok := rt.(*types.Named); ok {
+				if iface, ok := c.g.variantOf[n]; ok {
+					name := c.g.needDispatcher(iface, fn.Name(), c, e.Pos())
+					return "(" + strings.Join(append([]string{name, c.expr(f.X)}, args()...), " ") + ")"
+				}
 			}
 		}
 		name := c.g.needFunc(fn, c, e.Pos())
@@ -820,7 +1011,9 @@ func (c *fnCtx) assign(s *ast.AssignStmt) string {
 		}
 		if s.Tok == token.DEFINE {
 			if _, isPtr := c.typeOf(rhs).(*types.Pointer); isPtr {
-				c.g.fail(s.Pos(), "pointer-valued local %s", l.Name)
+				if _, ext := externTypes[c.typeOf(rhs).String()]; !ext {
+					c.g.fail(s.Pos(), "pointer-valued local %s", l.Name)
+				}
 			}
 		}
 		c.bind(l.Name)
@@ -848,6 +1041,9 @@ func (c *fnCtx) assign(s *ast.AssignStmt) string {
 		var fs []string
 		for i := 0; i < st.NumFields(); i++ {
 			f := st.Field(i)
+			if c.g.omitted[f] {
+				continue
+			}
 			if f.Name() == l.Sel.Name {
 				fs = append(fs, fmt.Sprintf("%s_%s := %s", n.Obj().Name(), f.Name(), v))
 			} else {
@@ -873,7 +1069,9 @@ func (c *fnCtx) nilTest(e ast.Expr) (ptr ast.Expr, nonNil bool, ok bool) {
 	if id, isId := y.(*ast.Ident); !isId || id.Name != "nil" {
 		return nil, false, false
 	}
-	if _, isPtr := c.typeOf(x).Underlying().(*types.Pointer); !isPtr {
+	switch c.typeOf(x).Underlying().(type) {
+	case *types.Pointer, *types.Interface:
+	default:
 		c.g.fail(e.Pos(), "nil test on %s", c.typeOf(x))
 	}
 	return x, b.Op == token.NEQ, true
@@ -1242,6 +1440,7 @@ func (g *gofun) needDispatcher(n *types.Named, m string, from *fnCtx, pos token.
 		for i := 0; i < st.NumFields(); i++ {
 			c.subst[rv+"."+st.Field(i).Name()] = rv + "_" + st.Field(i).Name()
 		}
+		c.subst[rv] = "(" + c.ctorPattern(v, st, rv) + ")" // the receiver as a whole
 		if d.Type.Results == nil || len(d.Type.Results.List) != 1 || len(d.Type.Results.List[0].Names) != 0 {
 			g.fail(d.Pos(), "interface method %s: result shape", fn.FullName())
 		}
@@ -1279,23 +1478,57 @@ func (g *gofun) translateRoot(fn *types.Func) (err string) {
 	return ""
 }
 
-func writeGoFuns(repo, out string) {
+type gofunUnit struct {
+	module string
+	paths  []string
+	// roots: {pkg path, type name or "", function/method name}; for an interface type, the method by cases
+	roots [][3]string
+	doc   string
+}
+
+var gofunUnits = []gofunUnit{
+	{module: "GoGen", paths: []string{"github.com/reedom/convergen/pkg/generator", "github.com/reedom/convergen/pkg/generator/model"},
+		roots: [][3]string{{"github.com/reedom/convergen/pkg/generator", "Generator", "FuncToString"}},
+		doc:   "pkg/generator (FuncToString, AssignmentToString, ManipulatorToString) and pkg/generator/model (String()/RetError() of the assignment kinds, loopVars, Var.FullType)"},
+	{module: "GoNode", paths: []string{"github.com/reedom/convergen/pkg/builder/model", "github.com/reedom/convergen/pkg/option"},
+		roots: [][3]string{
+			{"github.com/reedom/convergen/pkg/builder/model", "Node", "ObjName"},
+			{"github.com/reedom/convergen/pkg/builder/model", "Node", "ExprType"},
+			{"github.com/reedom/convergen/pkg/builder/model", "Node", "ReturnsError"},
+			{"github.com/reedom/convergen/pkg/builder/model", "Node", "ObjNullable"},
+			{"github.com/reedom/convergen/pkg/builder/model", "Node", "AssignExpr"},
+			{"github.com/reedom/convergen/pkg/builder/model", "Node", "MatcherExpr"},
+			{"github.com/reedom/convergen/pkg/builder/model", "Node", "NullCheckExpr"},
+		},
+		doc: "pkg/builder/model node.go and struct.go: the methods of the expression nodes (RootNode, ScalarNode, ConverterNode, TypecastEntry, StringerEntry, StructFieldNode, StructMethodNode) by cases"},
+}
+
+func (g *gofun) translateDispatcherRoot(n *types.Named, m string) (err string) {
+	defer func() {
+		if r := recover(); r != nil {
+			if u, ok := r.(unsupported); ok {
+				err = u.msg
+				g.inProg = map[string]bool{}
+				return
+			}
+			panic(r)
+		}
+	}()
+	g.needDispatcher(n, m, nil, n.Obj().Pos())
+	return ""
+}
+
+func translateUnit(repo string, u gofunUnit) (body string, problems []string) {
 	cfg := &packages.Config{
 		Mode: packages.NeedName | packages.NeedFiles | packages.NeedSyntax | packages.NeedTypes | packages.NeedTypesInfo | packages.NeedImports | packages.NeedDeps,
 		Dir:  repo,
 		Env:  append(os.Environ(), "GOFLAGS=-mod=mod", "GOPROXY=off", "GOSUMDB=off"),
 	}
-	paths := []string{"github.com/reedom/convergen/pkg/generator", "github.com/reedom/convergen/pkg/generator/model"}
-	pkgs, err := packages.Load(cfg, paths...)
-	var sb strings.Builder
-	sb.WriteString("(** GoFuns.v — GENERATED by harness/cmd/translate (gofun.go) from /repo's Go sources on every run. Do not edit.\n")
-	sb.WriteString("    pkg/generator (FuncToString, AssignmentToString, ManipulatorToString) and pkg/generator/model\n")
-	sb.WriteString("    (String()/RetError() of the assignment kinds, loopVars, Var.FullType) translated statement by statement. *)\n")
-	sb.WriteString("From Coq Require Import List NArith ZArith Bool.\nFrom Cvg Require Import Base GoLib.\nImport ListNotations.\nOpen Scope N_scope.\n\nModule GoGen.\n\n")
+	pkgs, err := packages.Load(cfg, u.paths...)
 	g := &gofun{pkgs: map[string]*packages.Package{}, decls: map[*types.Func]*ast.FuncDecl{}, infoOf: map[*types.Func]*types.Info{},
 		typeDone: map[string]bool{}, funDone: map[string]bool{}, inProg: map[string]bool{}, recursive: map[string]bool{},
-		variants: map[string][]*types.Named{}, variantOf: map[*types.Named]*types.Named{}, dropping: map[*types.Func]bool{}}
-	var problems []string
+		variants: map[string][]*types.Named{}, variantOf: map[*types.Named]*types.Named{}, dropping: map[*types.Func]bool{},
+		nilable: map[*types.Var]bool{}, omitted: map[*types.Var]bool{}}
 	if err != nil {
 		problems = append(problems, "load: "+err.Error())
 	}
@@ -1306,85 +1539,139 @@ func writeGoFuns(repo, out string) {
 		g.pkgs[p.PkgPath] = p
 		g.fset = p.Fset
 	}
-	if len(problems) == 0 {
-		// declarations
-		for _, p := range pkgs {
-			for _, f := range p.Syntax {
-				for _, d := range f.Decls {
-					if fd, ok := d.(*ast.FuncDecl); ok {
-						if fn, ok := p.TypesInfo.Defs[fd.Name].(*types.Func); ok {
-							g.decls[fn] = fd
-							g.infoOf[fn] = p.TypesInfo
+	if len(problems) > 0 {
+		return "", problems
+	}
+	for _, p := range pkgs {
+		for _, f := range p.Syntax {
+			for _, d := range f.Decls {
+				if fd, ok := d.(*ast.FuncDecl); ok {
+					if fn, ok := p.TypesInfo.Defs[fd.Name].(*types.Func); ok {
+						g.decls[fn] = fd
+						g.infoOf[fn] = p.TypesInfo
+					}
+				}
+			}
+			// struct fields compared with nil
+			info := p.TypesInfo
+			ast.Inspect(f, func(n ast.Node) bool {
+				b, ok := n.(*ast.BinaryExpr)
+				if !ok || (b.Op != token.EQL && b.Op != token.NEQ) {
+					return true
+				}
+				for _, pair := range [][2]ast.Expr{{b.X, b.Y}, {b.Y, b.X}} {
+					if id, ok := pair[1].(*ast.Ident); ok && id.Name == "nil" {
+						if sel, ok := pair[0].(*ast.SelectorExpr); ok {
+							if s, ok := info.Selections[sel]; ok && s.Kind() == types.FieldVal {
+								if fv, ok := s.Obj().(*types.Var); ok {
+									g.nilable[fv] = true
+								}
+							}
 						}
 					}
 				}
-			}
+				return true
+			})
 		}
-		// interfaces and the structs implementing them, in source order
-		for _, p := range pkgs {
-			scope := p.Types.Scope()
-			var named []*types.Named
-			for _, nm := range scope.Names() {
-				if tn, ok := scope.Lookup(nm).(*types.TypeName); ok && !tn.IsAlias() {
-					if n, ok := tn.Type().(*types.Named); ok {
-						named = append(named, n)
-					}
-				}
-			}
-			sort.Slice(named, func(i, j int) bool { return named[i].Obj().Pos() < named[j].Obj().Pos() })
-			for _, in := range named {
-				it, ok := in.Underlying().(*types.Interface)
-				if !ok || it.NumMethods() == 0 {
-					continue
-				}
-				for _, sn := range named {
-					if _, ok := sn.Underlying().(*types.Struct); !ok {
-						continue
-					}
-					if types.Implements(sn, it) || types.Implements(types.NewPointer(sn), it) {
-						g.variants[in.Obj().Name()] = append(g.variants[in.Obj().Name()], sn)
-						g.variantOf[sn] = in
-					}
+	}
+	for _, p := range pkgs {
+		scope := p.Types.Scope()
+		var named []*types.Named
+		for _, nm := range scope.Names() {
+			if tn, ok := scope.Lookup(nm).(*types.TypeName); ok && !tn.IsAlias() {
+				if n, ok := tn.Type().(*types.Named); ok {
+					named = append(named, n)
 				}
 			}
 		}
-		roots := []struct{ pkg, typ, name string }{
-			{paths[0], "Generator", "FuncToString"},
-		}
-		for _, r := range roots {
-			p := g.pkgs[r.pkg]
-			var fn *types.Func
-			if p != nil {
-				if r.typ == "" {
-					fn, _ = p.Types.Scope().Lookup(r.name).(*types.Func)
-				} else if tn, ok := p.Types.Scope().Lookup(r.typ).(*types.TypeName); ok {
-					obj, _, _ := types.LookupFieldOrMethod(types.NewPointer(tn.Type()), true, p.Types, r.name)
-					fn, _ = obj.(*types.Func)
-				}
-			}
-			if fn == nil {
-				problems = append(problems, fmt.Sprintf("root %s.%s.%s not found", r.pkg, r.typ, r.name))
+		sort.Slice(named, func(i, j int) bool { return named[i].Obj().Pos() < named[j].Obj().Pos() })
+		for _, in := range named {
+			it, ok := in.Underlying().(*types.Interface)
+			if !ok || it.NumMethods() == 0 {
 				continue
 			}
-			if e := g.translateRoot(fn); e != "" {
-				problems = append(problems, fmt.Sprintf("%s: unsupported: %s", r.name, e))
+			for _, sn := range named {
+				if _, ok := sn.Underlying().(*types.Struct); !ok {
+					continue
+				}
+				if types.Implements(sn, it) || types.Implements(types.NewPointer(sn), it) {
+					if _, taken := g.variantOf[sn]; taken {
+						continue
+					}
+					g.variants[in.Obj().Name()] = append(g.variants[in.Obj().Name()], sn)
+					g.variantOf[sn] = in
+				}
 			}
 		}
 	}
+	for _, r := range u.roots {
+		p := g.pkgs[r[0]]
+		if p == nil {
+			problems = append(problems, fmt.Sprintf("root %v: package not loaded", r))
+			continue
+		}
+		if r[1] == "" {
+			fn, _ := p.Types.Scope().Lookup(r[2]).(*types.Func)
+			if fn == nil {
+				problems = append(problems, fmt.Sprintf("root %v not found", r))
+			} else if e := g.translateRoot(fn); e != "" {
+				problems = append(problems, fmt.Sprintf("%s: unsupported: %s", r[2], e))
+			}
+			continue
+		}
+		tn, ok := p.Types.Scope().Lookup(r[1]).(*types.TypeName)
+		if !ok {
+			problems = append(problems, fmt.Sprintf("root %v: type not found", r))
+			continue
+		}
+		if n, ok := tn.Type().(*types.Named); ok {
+			if _, isI := n.Underlying().(*types.Interface); isI {
+				if e := g.translateDispatcherRoot(n, r[2]); e != "" {
+					problems = append(problems, fmt.Sprintf("%s.%s: unsupported: %s", r[1], r[2], e))
+				}
+				continue
+			}
+		}
+		obj, _, _ := types.LookupFieldOrMethod(types.NewPointer(tn.Type()), true, p.Types, r[2])
+		fn, _ := obj.(*types.Func)
+		if fn == nil {
+			problems = append(problems, fmt.Sprintf("root %v not found", r))
+		} else if e := g.translateRoot(fn); e != "" {
+			problems = append(problems, fmt.Sprintf("%s: unsupported: %s", r[2], e))
+		}
+	}
+	var sb strings.Builder
+	sb.WriteString("(* " + cmt(u.doc) + " *)\nModule " + u.module + ".\n\n")
 	for _, t := range g.typeOut {
 		sb.WriteString(t + "\n")
 	}
 	for _, f := range g.funOut {
 		sb.WriteString(f + "\n")
 	}
-	sb.WriteString("End GoGen.\n\n")
+	sb.WriteString("End " + u.module + ".\n\n")
+	return sb.String(), problems
+}
+
+func writeGoFuns(repo, out string) {
+	var sb strings.Builder
+	sb.WriteString("(** GoFuns.v — GENERATED by harness/cmd/translate (gofun.go) from /repo's Go sources on every run. Do not edit.\n")
+	sb.WriteString("    Go functions translated statement by statement (see DESIGN.md section 3.1, stage 2). *)\n")
+	sb.WriteString("From Coq Require Import List NArith ZArith Bool.\nFrom Cvg Require Import Base GoTypes GoLib.\nImport ListNotations.\nOpen Scope N_scope.\n\n")
+	var problems []string
+	for _, u := range gofunUnits {
+		body, ps := translateUnit(repo, u)
+		sb.WriteString(body)
+		for _, p := range ps {
+			problems = append(problems, u.module+": "+p)
+		}
+	}
 	sb.WriteString("(* what the translator could not translate (the tie proofs then fail to build) *)\n")
 	sb.WriteString("Definition gofun_untranslated : list (list N) :=\n  [")
 	for i, p := range problems {
 		if i > 0 {
 			sb.WriteString(";\n   ")
 		}
-		sb.WriteString("(* " + strings.ReplaceAll(strings.ReplaceAll(p, "(*", "( *"), "*)", "* )") + " *) " + bytesLit(p))
+		sb.WriteString("(* " + cmt(p) + " *) " + bytesLit(p))
 	}
 	sb.WriteString("].\n")
 	if err := os.WriteFile(filepath.Join(out, "GoFuns.v"), []byte(sb.String()), 0o644); err != nil {
